@@ -4,8 +4,8 @@
 //! C20 `show`, and the UCI-level parts of C06, C07, C10, C18.
 use crate::evid::{finalize, Check};
 use crate::gen;
-use crate::m_rules::{move_facts, record_tokens, token_disagreements};
-use crate::m_search::{self, game_moves, pv_fault, random_root, Root};
+use crate::pgn::{move_facts, record_tokens, token_disagreements};
+use crate::roots::{self, game_moves, pv_fault, random_root, Root};
 use crate::par::{self, Agg, Out};
 use crate::rng::{fnv, Rng};
 use crate::sess::{run_script, Cmd, GoRec, Script, SessionResult};
@@ -1057,7 +1057,7 @@ pub fn worker_ucisample(prop: &str, shard: usize, _nshards: usize, seed: u64, ti
             }
             _ => {
                 // C06 / C18: a game-like history on one engine (shared table), depth-limited
-                let steps = m_search::make_history(&corpus, &mut rng, 10, 5);
+                let steps = roots::make_history(&corpus, &mut rng, 10, 5);
                 for s in steps {
                     cmds.push(Cmd::Position(s.root));
                     cmds.push(Cmd::GoDepth(s.limit.unwrap_or(3)));
@@ -1099,7 +1099,7 @@ pub fn replay_ucisample(prop: &str, case: &Value, out: &mut Out) {
 /// C20 through the binary: `position fen F moves ...` + `show`, parsed like the in-process display.
 pub fn worker_c20show(shard: usize, nshards: usize, seed: u64, tier: &str, out: &mut Out) {
     let corpus = gen::corpus();
-    let keys = crate::m_rules::load_keys();
+    let keys = crate::pgn::load_keys();
     let n = match tier {
         "thorough" => 1500,
         _ => 60,
@@ -1208,10 +1208,21 @@ pub fn worker_c20show(shard: usize, nshards: usize, seed: u64, tier: &str, out: 
 // C19: reproducibility of fixed-depth search
 
 fn c19_script(root: &Root, depth: u8, prehistory: &[(Root, u8)]) -> Vec<String> {
+    c19_script_timed(root, depth, prehistory, 0)
+}
+
+/// `stale_timer_ms` > 0: the searches of the pre-history are given a move time as well as a
+/// depth; they end at their depth limit at once and leave their timer threads behind, which
+/// wake up while the search under test is running.
+fn c19_script_timed(root: &Root, depth: u8, prehistory: &[(Root, u8)], stale_timer_ms: u64) -> Vec<String> {
     let mut v = vec![];
     for (r, d) in prehistory {
         v.push(Cmd::Position(r.clone()).text());
-        v.push(format!("go depth {d}"));
+        if stale_timer_ms > 0 {
+            v.push(format!("go depth {d} movetime {stale_timer_ms}"));
+        } else {
+            v.push(format!("go depth {d}"));
+        }
         v.push("wait".into());
     }
     if !prehistory.is_empty() {
@@ -1260,10 +1271,19 @@ pub fn worker_c19(shard: usize, _nshards: usize, seed: u64, tier: &str, out: &mu
         _ => 6,
     };
     let have = |p: &str| std::path::Path::new(p).exists();
-    for i in 0..n {
-        let root = small_root(&corpus, &mut rng);
-        let depth = match tier {
-            "thorough" => 3 + rng.below(5) as u8,
+    for i in 0..n + 1 {
+        // the last case of every worker is a long one: an opening position searched to depth 7
+        // (hundreds of ms), so that timers left behind by the pre-history fire while it runs
+        let long = i == n;
+        let root = if long {
+            let spec = gen::GameSpec { start_fen: gen::START_FEN.into(), policy: 0, max_plies: rng.below(8), seed: rng.next(), route: 0 };
+            Root { fen: gen::START_FEN.into(), moves: game_moves(&spec) }
+        } else {
+            small_root(&corpus, &mut rng)
+        };
+        let depth = match (tier, long) {
+            (_, true) => 7,
+            ("thorough", _) => 3 + rng.below(5) as u8,
             _ => 3 + rng.below(3) as u8,
         };
         let case = json!({"kind":"repro","root":root.json(),"depth":depth});
@@ -1305,6 +1325,25 @@ pub fn worker_c19(shard: usize, _nshards: usize, seed: u64, tier: &str, out: &mu
             pre.push((root.clone(), depth + 1));
         }
         variants.push(("after a pre-history and ucinewgame".into(), c19_script(&root, depth, &pre), vec![], vec![]));
+        // related pre-history: the same root searched shallower and deeper, and its neighbours
+        let mut related = vec![(root.clone(), depth.saturating_sub(2).max(1)), (root.clone(), depth + 1)];
+        if let Some(p) = root.shadow() {
+            let legal = p.legal_moves();
+            if !legal.is_empty() {
+                let mut r2 = root.clone();
+                r2.moves.push(rng.pick(&legal).uci());
+                related.push((r2, depth));
+            }
+        }
+        variants.push(("after a related pre-history and ucinewgame".into(), c19_script(&root, depth, &related), vec![], vec![]));
+        // timers left behind by earlier searches
+        for ms in if long { vec![40u64, 150] } else { vec![15] } {
+            let timed_pre = vec![(small_root(&corpus, &mut rng), 1u8), (root.clone(), 1u8)];
+            variants.push((format!("after timed searches (movetime {ms}) and ucinewgame"), c19_script_timed(&root, depth, &timed_pre, ms), vec![], vec![]));
+        }
+        if long {
+            out.add("long_references", 1);
+        }
         for (what, script, wrapper, envs) in variants {
             match c19_run(&script, &wrapper, &envs) {
                 Ok(t) => {
@@ -1333,11 +1372,13 @@ pub fn run_c19(tier: &str, seed: u64) -> (Check, Agg) {
     let agg = par::run_workers("C19", tier, seed, nshards, &[], Duration::from_secs(if tier == "thorough" { 10800 } else { 1500 }), None, &[]);
     chk.evaluations = agg.c("perturbed_runs") + agg.c("reference_transcripts");
     chk.distinct_nontrivial = agg.c("transcripts_with_two_or_more_iterations");
-    chk.rule = "case = (root, depth 3-7): the complete stdout of `position; go depth d; wait` from a fresh engine is the reference; it must be byte-identical to the same script repeated, pinned to one core (taskset), at nice 19, with ASLR off (setarch -R), with the environment padded by 64 KiB (moves the stack), with schedule points delayed, under 16-way load (all workers run concurrently), and to the segment after `ucinewgame` following an arbitrary pre-history (other positions, and the same root searched shallower and deeper). In-process: the same search on two separately allocated tables must agree. non-trivial = the reference completed at least two iterations.".into();
+    chk.rule = "case = (root, depth 3-7): the complete stdout of `position; go depth d; wait` from a fresh engine is the reference; it must be byte-identical to the same script repeated, pinned to one core (taskset), at nice 19, with ASLR off (setarch -R), with the environment padded by 64 KiB (moves the stack), with schedule points delayed, under 16-way load (all workers run concurrently), and to the segment after `ucinewgame` following an arbitrary pre-history (other positions), a related pre-history (the same root searched shallower and deeper, a neighbouring position) and a pre-history of timed searches whose timer threads are still alive (each worker also runs one long depth-7 reference so that those timers fire during the search under test). In-process: the same search on two separately allocated tables must agree. non-trivial = the reference completed at least two iterations.".into();
     chk.assumptions = vec!["hardware and allocator cannot be varied in this sandbox".into()];
     chk.need("reference transcripts", agg.c("reference_transcripts"), 20);
     chk.need("perturbed runs", agg.c("perturbed_runs"), 120);
     chk.need("runs after pre-history + ucinewgame", agg.c("runs_after_a_pre-history_and_ucinewgame"), 20);
+    chk.need("runs after a related pre-history + ucinewgame", agg.c("runs_after_a_related_pre-history_and_ucinewgame"), 20);
+    chk.need("long references (depth 7) with stale timers", agg.c("long_references"), 8);
     (chk, agg)
 }
 
